@@ -141,3 +141,56 @@ def all_chars(s, chars):
     if is_sym(s):
         return Sym(z3.InRe(s.t, z3.Star(z3.Union(*[z3.Re(c) for c in chars]) if len(chars) > 1 else z3.Re(chars[0]))), 'bool')
     return set(s) <= set(chars)
+
+
+def numeric_result(out, x, tol=0.0):
+    """returned a number equal to x: a Number object or a native int/float (functions annotated with the
+    class `Number` hand back the native value)"""
+    if out.kind != 'ret':
+        return False
+    v = out.value
+    if isinstance(v, T().Number):
+        v = v.value
+    if isinstance(v, bool) or (is_sym(v) and v.k not in ('int', 'real')):
+        return False
+    if not (is_sym(v) or isinstance(v, (int, float))):
+        return False
+    return num_eq(v, x, tol)
+
+
+def text_form(x):
+    """the text an argument denotes when a text is expected: what `Text.cast` yields (DESIGN section 3:
+    the rendering of numbers/booleans is not constrained beyond being the same for every use)"""
+    from . import models as M
+    t = T()
+    if is_sym(x):
+        if x.k == 'str':
+            return x
+        if x.k == 'bool':
+            return Ite(x, 'True', 'False')
+        return M.STR_INT(x) if x.k == 'int' else M.STR_REAL(x)
+    if isinstance(x, bool):
+        return str(x)
+    if isinstance(x, (int, float)):
+        return str(x)
+    if isinstance(x, str):
+        return x
+    if isinstance(x, t.Text):
+        return x.value
+    if isinstance(x, t.Blank):
+        return ''
+    if isinstance(x, (t.Number, t.Boolean)):
+        return text_form(x.value)
+    raise AssertionError(f'text_form({x!r})')
+
+
+def num_form(x):
+    """numeric reading of a number-like argument (Number object or native int/float)"""
+    t = T()
+    if isinstance(x, t.Number):
+        return x.value
+    if isinstance(x, t.Blank):
+        return 0
+    if isinstance(x, t.Boolean):
+        return Ite(x.value, 1, 0) if is_sym(x.value) else int(x.value)
+    return x
